@@ -227,7 +227,8 @@ class Flow:
             # the cells (the key selects, its text does not flow)
             cv = self._const_table_cells(e.value, fn)
             if cv is not None:
-                return cv
+                return cv | {a for a in A(e.value)
+                             if not a.startswith(('const:', 'key:'))}
         if isinstance(e, (ast.Attribute, ast.Subscript)):
             if isinstance(e, ast.Subscript) and isinstance(
                     e.slice, ast.Constant) and isinstance(
